@@ -218,7 +218,7 @@ fn run_case(ctx: &Ctx, index: u64, rep: &mut Report) {
             }
         }
     }
-    if !model.capped && collapsed != model.lines_visited {
+    if !model.capped && collapsed != model.lines_visited && collapsed != model.lines_visited_without_separator_only_visits {
         ctx.violation(rep, "C17", "trace-lines", index,
             format!("collapsed trace {:?} != lines visited by the model {:?}", collapsed, model.lines_visited),
             json!({"program": exec::program_json(&g.prog), "replies": g.replies}));
